@@ -1,2 +1,182 @@
-//! Harnesses for property C12 (see /verif/properties.jsonl).
+//! Harnesses for property C12 (see /verif/properties.jsonl): NTP version negotiation of a plain
+//! source. (NTS sources use the version negotiated during key exchange: with C07.)
+//!
+//! Reference transition function (written from the property text):
+//!   timer:    a source that is reset/demobilised keeps its state; otherwise
+//!             UpgradedToV5 with the last two polls unanswered -> V4 (fallback), else unchanged.
+//!             V4 sends plain v4, V4UpgradingToV5 sends a v4 upgrade request (marker "NTP5DRFT"
+//!             in the reference timestamp), UpgradedToV5 and V5 send v5.
+//!   incoming: only an answer that matches the pending request and has the expected version moves
+//!             the state: V4UpgradingToV5{t}: marker -> UpgradedToV5, else t-1 (0 -> V4);
+//!             UpgradedToV5 -> V5; V4 and V5 never move.
+use crate::common::*;
 use crate::stubs;
+use ntp_proto::*;
+
+type PV = ProtocolVersion;
+
+fn ref_timer(pv: PV, reach: u8, tries: usize) -> (PV, bool) {
+    if reach == 0 && tries >= 3 {
+        return (pv, false);
+    }
+    let missed_two = reach & 0b11 == 0;
+    match pv {
+        PV::UpgradedToV5 if missed_two => (PV::V4, true),
+        other => (other, true),
+    }
+}
+
+fn ref_incoming(pv: PV, matching: bool, marker: bool) -> PV {
+    if !matching {
+        return pv;
+    }
+    match pv {
+        PV::V4 => PV::V4,
+        PV::V5 => PV::V5,
+        PV::UpgradedToV5 => PV::V5,
+        PV::V4UpgradingToV5 { tries_left } => {
+            if marker {
+                PV::UpgradedToV5
+            } else if tries_left <= 1 {
+                PV::V4
+            } else {
+                PV::V4UpgradingToV5 { tries_left: tries_left - 1 }
+            }
+        }
+    }
+}
+
+fn upgrade_counter_ok(pv: PV) -> bool {
+    match pv {
+        PV::V4UpgradingToV5 { tries_left } => tries_left >= 1 && tries_left <= 8,
+        _ => true,
+    }
+}
+
+sharness! {
+    #[kani::unwind(30)]
+    fn c12_timer() {
+        stubs::symbolic_clock();
+        let (mut src, pre) = any_source(PvClass::Any);
+        let acts = collect(src.handle_timer());
+        let post = sh::state(&src);
+        let (expect, sends) = ref_timer(pre.pv, pre.reach, pre.tries);
+        assert!(post.protocol_version == expect, "C12: timer transition of the version state machine");
+        assert!(upgrade_counter_ok(post.protocol_version), "C12: upgrade counter stays within 1..=8");
+        assert!(acts.sent.is_some() == sends, "C12: a request is sent iff the source is not reset");
+        if let Some(p) = &acts.sent {
+            let v = version_bits(p);
+            assert!(mode_bits(p) == 3, "C12: requests are in client mode");
+            match expect {
+                PV::V4 => {
+                    assert!(v == 4 && p.len() == 48, "C12: an NTPv4 association only sends plain NTPv4");
+                    assert!(!has_upgrade_marker(p), "C12: plain NTPv4 requests carry no upgrade marker");
+                }
+                PV::V4UpgradingToV5 { .. } => {
+                    assert!(v == 4 && p.len() == 48, "C12: automatic mode sends NTPv4 requests while upgrading");
+                    assert!(has_upgrade_marker(p), "C12: upgrade requests carry the upgrade marker");
+                }
+                PV::UpgradedToV5 | PV::V5 => {
+                    assert!(v == 5, "C12: an (upgraded) NTPv5 association only sends NTPv5");
+                    assert!(p.len() >= V5_LEN && p[48] == 0xF5 && p[49] == 0xFF, "C12: NTPv5 requests identify the draft");
+                    let mut ok = true;
+                    let mut i = 0;
+                    while i < 23 {
+                        ok &= p[52 + i] == DRAFT[i];
+                        i += 1;
+                    }
+                    assert!(ok, "C12: draft identification text");
+                }
+            }
+        }
+        kani::cover!(matches!(pre.pv, PV::UpgradedToV5) && matches!(post.protocol_version, PV::V4) && acts.sent.is_some(), "fallback to NTPv4 after two missed polls");
+        kani::cover!(matches!(pre.pv, PV::UpgradedToV5) && matches!(post.protocol_version, PV::UpgradedToV5) && pre.reach & 3 == 2, "one missed poll: still NTPv5");
+        kani::cover!(matches!(pre.pv, PV::V4UpgradingToV5 { .. }) && acts.sent.is_some(), "upgrade request sent");
+        kani::cover!(matches!(pre.pv, PV::V5) && acts.sent.is_some() && pre.reach & 3 == 0, "configured NTPv5 never falls back");
+        kani::cover!(matches!(pre.pv, PV::UpgradedToV5) && acts.sent.is_none(), "upgraded source reset instead of falling back");
+    }
+}
+
+/// returns (may match, must match, marker, version state afterwards)
+#[cfg(kani)]
+fn incoming_body(src: &mut Src, pre: &Pre, pkt: &[u8]) -> (bool, bool, bool, PV) {
+    let before = sh::state(src);
+    let acts = collect(src.handle_incoming(pkt, th::ts_from_raw(1), th::ts_from_raw(2)));
+    let after_t = tokio::time::Instant::now();
+    let post = sh::state(src);
+    let n = sh::controller(src).n_meas;
+    let marker = version_bits(pkt) == 4 && has_upgrade_marker(pkt);
+    let may = may_match(pre, pkt);
+    let must = must_match(pre, pkt, after_t);
+    // soundness: the state only moves on a matching answer, and then as the reference says
+    if post.protocol_version != pre.pv {
+        assert!(may, "C12: version state moved on a packet that does not answer the pending request");
+        assert!(post.protocol_version == ref_incoming(pre.pv, true, marker), "C12: incoming transition of the version state machine");
+    }
+    // completeness: a matching answer moves it
+    if must {
+        assert!(post.protocol_version == ref_incoming(pre.pv, true, marker), "C12: matching answer must advance the version state machine");
+    }
+    if !may {
+        assert!(post.protocol_version == ref_incoming(pre.pv, false, marker), "C12: non-matching packet");
+    }
+    assert!(upgrade_counter_ok(post.protocol_version), "C12: upgrade counter stays within 1..=8");
+    // a source only accepts answers of the version it expects
+    if n != 0 {
+        assert!(version_expected(pre.pv, version_bits(pkt)), "C12: measured an answer of an unexpected version");
+    }
+    if !version_expected(pre.pv, version_bits(pkt)) {
+        assert!(post == before && n == 0 && pending_unchanged(src, pre), "C12: packet of an unexpected version must be ignored");
+    }
+    assert!(acts.n == 0, "C12: no actions");
+    (may, must, marker, post.protocol_version)
+}
+
+sharness! {
+    #[kani::unwind(12)]
+    fn c12_incoming() {
+        stubs::symbolic_clock();
+        let (mut src, pre) = any_source(PvClass::Any);
+        let mut p = any_pkt4();
+        let b0: u8 = kani::any();
+        let mut out = (false, false, false, PV::V4);
+        let mut run = |v: u8| {
+            p.set_b0(v);
+            out = incoming_body(&mut src, &pre, p.bytes());
+        };
+        for_b0!(quick, b0, run);
+        let (may, must, marker, post) = out;
+        let pkt = p.b;
+        kani::cover!(must && matches!(pre.pv, PV::V4UpgradingToV5 { .. }) && matches!(post, PV::UpgradedToV5), "upgrade on marker");
+        kani::cover!(must && matches!(pre.pv, PV::V4UpgradingToV5 { tries_left: 1 }) && matches!(post, PV::V4), "eighth answer without marker: plain NTPv4");
+        kani::cover!(must && matches!(pre.pv, PV::V4UpgradingToV5 { tries_left: 8 }) && matches!(post, PV::V4UpgradingToV5 { tries_left: 7 }), "first answer without marker");
+        kani::cover!(!may && marker && matches!(pre.pv, PV::V4UpgradingToV5 { .. }), "unsolicited marker ignored");
+        kani::cover!(must && matches!(pre.pv, PV::V4) && marker, "marker ignored by an NTPv4-only association");
+        kani::cover!(must && matches!(pre.pv, PV::V4) && version_bits(&pkt[..]) == 3, "v3 answer to an NTPv4-only association");
+        kani::cover!(version_bits(&pkt[..]) == 3 && matches!(pre.pv, PV::V4UpgradingToV5 { .. }) && origin_field(&pkt[..]) == pre.pending_id && pre.has_pending && pre.deadline >= pre.base, "v3 packet while upgrading ignored");
+        kani::cover!(version_bits(&pkt[..]) == 4 && matches!(pre.pv, PV::V5) && origin_field(&pkt[..]) == pre.pending_id && pre.has_pending && pre.deadline >= pre.base, "v4 packet to an NTPv5 association ignored");
+    }
+}
+
+sharness! {
+    #[kani::unwind(30)]
+    fn c12_incoming_v5() {
+        stubs::symbolic_clock();
+        let (mut src, pre) = any_source(PvClass::Any);
+        let mut p = any_pkt5();
+        let sel: u8 = kani::any();
+        let mut out = (false, false, false, PV::V4);
+        let mut run = |b0: u8, b12: u8, b14: u8, b15: u8| {
+            p.set_hdr(b0, b12, b14, b15);
+            out = incoming_body(&mut src, &pre, p.bytes());
+        };
+        for_v5hdr!(all, sel, run);
+        let (may, must, marker, post) = out;
+        let pkt = p.bytes();
+        kani::cover!(must && matches!(pre.pv, PV::UpgradedToV5) && matches!(post, PV::V5), "first NTPv5 answer confirms the upgrade");
+        kani::cover!(must && matches!(pre.pv, PV::V5), "NTPv5 answer to an NTPv5 association");
+        kani::cover!(!may && matches!(pre.pv, PV::UpgradedToV5) && decodable(pkt), "non-matching NTPv5 packet does not confirm");
+        kani::cover!(version_bits(&pkt[..]) == 5 && decodable(pkt) && matches!(pre.pv, PV::V4UpgradingToV5 { .. }) && origin_field(&pkt[..]) == pre.pending_id && pre.has_pending && pre.deadline >= pre.base, "v5 packet while upgrading ignored");
+        kani::cover!(version_bits(&pkt[..]) == 5 && decodable(pkt) && matches!(pre.pv, PV::V4) && origin_field(&pkt[..]) == pre.pending_id && pre.has_pending && pre.deadline >= pre.base, "v5 packet to an NTPv4 association ignored");
+    }
+}
